@@ -84,7 +84,7 @@ def literal_value(text):
     s = text
     sign = 1
     if s.startswith("-"):
-        sign, s = -1, s[1:]
+        sign, s = -1, s[1:].lstrip(" ")       # a minus in front of a literal, blanks allowed
     m = re.fullmatch(r"\^([xXoObBdD])([0-9a-fA-F]+)", s)
     if m:
         base = {"x": 16, "o": 8, "b": 2, "d": 10}[m.group(1).lower()]
